@@ -25,7 +25,14 @@ func sortedPairsString(pairs []Pair) string {
 
 	sort.Slice(
 		pairStrs,
-		func(i, j int) bool { return pairStrs[i].k < pairStrs[j].k },
+		func(i, j int) bool {
+			// NOTE: different keys may have the same string (like floats 1.0000001 and 1.0000002),
+			// compare values too to keep the order fixed
+			if pairStrs[i].k != pairStrs[j].k {
+				return pairStrs[i].k < pairStrs[j].k
+			}
+			return pairStrs[i].v < pairStrs[j].v
+		},
 	)
 
 	sortedStrs := []string{}
@@ -50,7 +57,14 @@ func sortedPairsRepr(pairs []Pair) string {
 
 	sort.Slice(
 		pairStrs,
-		func(i, j int) bool { return pairStrs[i].k < pairStrs[j].k },
+		func(i, j int) bool {
+			// NOTE: different keys may have the same string (like floats 1.0000001 and 1.0000002),
+			// compare values too to keep the order fixed
+			if pairStrs[i].k != pairStrs[j].k {
+				return pairStrs[i].k < pairStrs[j].k
+			}
+			return pairStrs[i].v < pairStrs[j].v
+		},
 	)
 
 	sortedStrs := []string{}
